@@ -60,3 +60,15 @@ func ProfileServerTransport(avoid map[string]string) *Profile {
 	p.DefaultPaths = false
 	return p
 }
+
+// ProfileHeaders declares service- and method-level headers of every type/format on simple RPCs.
+func ProfileHeaders(avoid map[string]string) *Profile {
+	return &Profile{Name: "headers", MaxDataMessages: 1, MaxFields: 3, Optionals: true, Repeateds: true, Enums: true, MessageFields: true,
+		MaxServices: 2, MaxMethods: 3, Transport: true, BasePaths: true, Headers: true, HeaderHeavy: true, NoClient: true, Avoid: avoid}
+}
+
+// ProfileErrors: rules (top-level and nested), headers, custom *Error messages.
+func ProfileErrors(avoid map[string]string) *Profile {
+	return &Profile{Name: "errors", MaxDataMessages: 2, MaxFields: 4, Maps: true, Optionals: true, Repeateds: true, Enums: true, MessageFields: true,
+		MaxServices: 1, MaxMethods: 3, Transport: true, BasePaths: true, Headers: true, Rules: true, ErrorMessages: true, Avoid: avoid}
+}
